@@ -1420,13 +1420,13 @@ def run(ctx):
     cmp_cases = [c for c in corpus if c["kind"] == "compare"]
     h_cases = [c for c in corpus if c["kind"] == "history"]
     ctx.count("corpus", len(corpus))
-    gen_st = [gen_status_case(rng) for _ in range(ctx.n(220, 1300))]
+    gen_st = [gen_status_case(rng) for _ in range(ctx.n(195, 1300))]
     digit_sweep(gen_st)
     for c in gen_st:
         if c.get("sweep"):
             ctx.count("status:sweep:" + c["sweep"].split("-")[0] + "-id-last-digit")
     st_cases += fixed_status_cases() + gen_st
-    cmp_cases += compare_flag_sweep() + [gen_compare_case(rng) for _ in range(ctx.n(120, 600))]
+    cmp_cases += compare_flag_sweep() + [gen_compare_case(rng) for _ in range(ctx.n(104, 600))]
     max_ops = 10 if ctx.tier == "quick" else 30
     for _ in range(ctx.n(70, 400)):
         h_cases.append(gen_history_case(rng, max_ops, closed=rng.random() < 0.8))
